@@ -29,6 +29,11 @@ func mutexKey(v ssa.Value) string {
 			return mutexKey(b)
 		}
 		return "fv:" + x.Name()
+	case *ssa.Parameter:
+		// a mutex handed to a private helper by its only caller
+		if a := uniqueCallerArg(x); a != nil {
+			return mutexKey(a)
+		}
 	case *ssa.FieldAddr:
 		tn := "?"
 		if n := namedOf(x.X.Type()); n != nil {
@@ -343,7 +348,8 @@ func isMapType(t types.Type) bool {
 // (matched through free-variable bindings), inside fn.
 func cellAccesses(fn *ssa.Function, owner *ssa.Function, name string) []access {
 	var out []access
-	isCell := func(v ssa.Value) bool {
+	isCell := func(v ssa.Value) bool { return cellOf(v, owner, name) }
+	_ = func(v ssa.Value) bool {
 		for i := 0; i < 10; i++ {
 			switch x := v.(type) {
 			case *ssa.Alloc:
